@@ -548,3 +548,8 @@ def run(ctx):
     round3.share(ctx, "R13.7", "C15", lambda i_: i_["rule"] == "R15.3" and (i_["inst"].split(":")[0] in
                  ("by_pid", "by_rank", "by_tid", "by_phyid", "cmp_loom_rank", "cmp_loom_id")), "row-order:",
                  "the .row file and the row numbers no longer follow the documented order", 10)
+    ctx.rule("R13.8", "the value printed on the thread's CPU-affinity row has a label: thread_set_cpu and "
+             "thread_migrate_cpu publish the CPU's global index and cpu_add_to_pcf_type keys the label with global "
+             "index + 1 (evaluated on a CPU whose global, logical and physical numbers differ)")
+    from rules import round4
+    round4.check_affinity_value_is_gindex(ctx, "R13.8")
